@@ -291,10 +291,13 @@ package k8s
 //@         ptsP(res, q, n) == (isPP(q, n) && (exists k int :: {rulePorts[k]} 0 <= k && k <= rangeindex && rulePortMatch(rulePorts[k], dst, q, n)))
 //@     invariant named: forall q v1.Protocol, s string :: {s in res.AllowedProtocols[q].NamedPorts} !npts(res, q, s)
 //@   at call 12 use: wf, pts, npts, others
-//@   before call 12:
+//@   before call 12 cut:
 //@     assert ports: wfPS(ports) && inRange(ports) && noNames(ports) && psApart(res, ports) && wfCS(res) && !res.AllowAll && freshSep(res) && allKept()
 //@     assert nums: forall n int :: {iset(ports.Ports)[n]} iset(ports.Ports)[n] == rulePortMatch(rulePorts[rangeindex], dst, protocol, n)
 //@     assert proto: protocol == rpProto(rulePorts[rangeindex]) && isProto(protocol) && 0 <= rangeindex && rangeindex < len(rulePorts)
+//@     assert rest: fresh(res) && len(rulePorts) > 0 && (forall q v1.Protocol, s string :: {s in res.AllowedProtocols[q].NamedPorts} !npts(res, q, s))
+//@     assert sofar: forall q v1.Protocol, n int :: {iset(res.AllowedProtocols[q].Ports)[n]}
+//@         ptsP(res, q, n) == (isPP(q, n) && (exists k int :: {rulePorts[k]} 0 <= k && k <= rangeindex - 1 && rulePortMatch(rulePorts[k], dst, q, n)))
 
 // ---------------------------------------------------------------------------------------------
 // ipBlock peers: the block of a rule peer is its CIDR minus every except (C01, C14)
@@ -316,3 +319,18 @@ package k8s
 //@   modifies *
 //@   ensures [C14,C01] real: (!isPeerRepresentative && err == nil) ==> (selectorsMatch == lsMatch(ruleSelector, peerLabels) && lsValid(ruleSelector))
 //@   ensures [C14,C01] invalid: (!isPeerRepresentative && !lsValid(ruleSelector)) ==> err != nil
+
+// ---------------------------------------------------------------------------------------------
+// Ingress: only TCP container ports of the workload are exposed (C10)
+// ---------------------------------------------------------------------------------------------
+
+//@ func (*Pod).PodExposedTCPConnections
+//@   requires pod != nil && validPodPorts(pod)
+//@   modifies *
+//@   ensures [C10] wf: wfCS(res) && fresh(res) && !res.AllowAll
+//@   ensures [C10] tcponly: forall q v1.Protocol, n int :: {iset(res.AllowedProtocols[q].Ports)[n]} ptsP(res, q, n) ==
+//@         (q == "TCP" && (exists k int :: {pod.Ports[k]} 0 <= k && k < len(pod.Ports) && cpProto(pod.Ports[k]) == "TCP" && pod.Ports[k].ContainerPort == n))
+//@   loop 1:
+//@     invariant wf: wfCS(res) && fresh(res) && !res.AllowAll && freshSep(res) && allKept()
+//@     invariant pts: forall q v1.Protocol, n int :: {iset(res.AllowedProtocols[q].Ports)[n]} ptsP(res, q, n) ==
+//@         (q == "TCP" && (exists k int :: {pod.Ports[k]} 0 <= k && k <= rangeindex && cpProto(pod.Ports[k]) == "TCP" && pod.Ports[k].ContainerPort == n))
